@@ -27,7 +27,7 @@ fn gen_finish_c01(rng: &mut Rng) -> Finish {
             let nparts = rng.range(1, 5);
             let body_len = *rng.pick(&[0usize, 10, 1500, 5000]);
             let parts = (0..nparts).map(|_| (rng.range(1, 900), rng.chance(1, 2))).collect();
-            Finish::Writer { status: 200, body_len, parts, early_drop_sleep_us: if rng.chance(1, 3) { rng.range(0, 1500) as u64 } else { 0 } }
+            Finish::Writer { status: 200, body_len, parts, early_drop_sleep_us: if rng.chance(1, 3) { rng.range(0, 1500) as u64 } else { 0 }, vectored: rng.chance(1, 3) }
         }
         10 => Finish::Drop,
         _ => Finish::WriterNothing,
@@ -142,6 +142,10 @@ pub fn gen_c06(rng: &mut Rng, caseid: u64, unix: bool, bound_ms: u64) -> (ConvCa
     let mut kinds = Vec::new();
     let mut all_small = true;
     let last_upgrade = rng.chance(1, 8);
+    // a quarter of the trials: the connection stays open after the last request (no
+    // `Connection: close`); the client waits for all the responses and only then leaves. An
+    // answer that is left sitting in a buffer until the connection is torn down shows here.
+    let keep_open = !last_upgrade && rng.chance(1, 4);
     for i in 0..n {
         let last = i + 1 == n;
         let bkind = rng.below(5);
@@ -184,10 +188,10 @@ pub fn gen_c06(rng: &mut Rng, caseid: u64, unix: bool, bound_ms: u64) -> (ConvCa
         if upgrade_here {
             a.add("Connection", " upgrade");
             a.add("Upgrade", " vproto");
-        } else if last {
+        } else if last && !keep_open {
             a.add("Connection", " close");
         }
-        let broken_here = last && !upgrade_here && rng.chance(1, 12);
+        let broken_here = last && !upgrade_here && !keep_open && rng.chance(1, 12);
         let finish = if upgrade_here {
             Finish::Upgrade { read: false, write: 0 }
         } else if broken_here {
@@ -207,6 +211,7 @@ pub fn gen_c06(rng: &mut Rng, caseid: u64, unix: bool, bound_ms: u64) -> (ConvCa
                     body_len: *rng.pick(&[0usize, 10, 3000]),
                     parts: (0..rng.range(1, 4)).map(|_| (rng.range(1, 900), rng.chance(1, 2))).collect(),
                     early_drop_sleep_us: 0,
+                    vectored: rng.chance(1, 3),
                 },
                 6..=7 => Finish::Drop,
                 _ => Finish::Panic,
@@ -239,9 +244,16 @@ pub fn gen_c06(rng: &mut Rng, caseid: u64, unix: bool, bound_ms: u64) -> (ConvCa
         // becomes available), so holding the body back there would demand more than the statement.
         cl_big && !matches!(lp.read, ReadPlan::ToEof { .. }) && matches!(lp.finish, Finish::Respond { .. } | Finish::Drop | Finish::Panic)
     };
-    let withhold = last_streamed_unread && rng.chance(1, 2);
+    let withhold = last_streamed_unread && !keep_open && rng.chance(1, 2);
     let mut case = p.finish(rng, "pipeline", unix, &[], false, bound_ms);
     case.script = segmented_script(rng, &case, false);
+    if keep_open {
+        case.exp_eof = false;
+        let nresp = case.exp_responses.len();
+        case.script.pop(); // AwaitEnd
+        case.script.push(Step::AwaitFinals(nresp));
+        case.script.push(Step::Close);
+    }
     if withhold {
         let total = case.wire.len();
         let last = case.reqs.last().unwrap();
@@ -266,7 +278,7 @@ pub fn gen_c06(rng: &mut Rng, caseid: u64, unix: bool, bound_ms: u64) -> (ConvCa
         Sched::Gate { .. } => "gate",
     };
     case.sched = sched;
-    let sig = format!("n{}|{:?}|{}|nfd{}|wh{}", n, kinds, sl, nonfirst_dropped, withhold);
+    let sig = format!("n{}|{:?}|{}|nfd{}|wh{}|ko{}", n, kinds, sl, nonfirst_dropped, withhold, keep_open);
     (case, Some(sig))
 }
 
